@@ -60,7 +60,7 @@ def owned_chain_rows(rng):
     """Chains of thin decks, each *seen by a subset of the ceilometers only* (with a small per-ceilometer height
     offset), under EXCLUDE_FOR_BASE_HEIGHT_CALC: a deck seen by excluded instruments only falls back to all its
     hits; once merged with a deck that has enough other hits the fall-back no longer applies and the base moves."""
-    names = ['a', 'b', 'c'][:rng.choice([2, 2, 3])]
+    names = ['a', 'b', 'c', 'd'][:rng.choice([2, 2, 3, 3, 4])]
     n_steps = rng.choice([12, 20, 30])
     S = rng.choice([250, 500, 100])
     base = rng.choice([400, 1000, 3000, 9000])
@@ -87,8 +87,9 @@ def owned_chain_rows(rng):
                       for c in owners})
     rows = []
     for ci, c in enumerate(names):
+        off_c = rng.choice([0.0, float((5 * ci) % 15)])          # one grid offset per ceilometer, smaller than the step
         for s_ in range(n_steps):
-            dt = -(n_steps - s_) * 15.0 + 5.0 * ci * rng.choice([0, 1])
+            dt = -(n_steps - s_) * 15.0 + off_c
             here = sorted(float(d[c][0] + rng.choice([0, 0, 3, -3])) for d in decks if c in d and s_ < d[c][1])
             if not here:
                 rows.append((c, dt, float('nan'), 0))
@@ -353,14 +354,19 @@ def _work(args):
     index, ikind = index_variant(random.Random(f'{seed}:idx:{family}:{k}'), rows)
     meta['index'] = ikind
     # one scene in three goes through the package's entry point `ampycloud.run` instead of the stage methods
-    route = 'run' if random.Random(f'{seed}:route:{family}:{k}').random() < 0.33 else 'stepwise'
+    rr = random.Random(f'{seed}:route:{family}:{k}')
+    r_ = rr.random()
+    route = 'run' if r_ < 0.3 else ('global' if r_ < 0.42 else 'stepwise')
+    if rr.random() < 0.12:
+        prms = scenes.numpy_typed(prms, rr)          # parameter values as NumPy scalars
+        meta['numpy_typed_prms'] = True
     meta['route'] = route
     try:
         obs = scenes.run_scene(rows, prms, index=index, route=route)
     except Exception as e:
         return {'meta': meta, 'harness_error': f'{type(e).__name__}: {e}'}
     out = {'meta': meta, 'exc': obs['exc'], 'stage': obs['stage'], 'exc_msg': obs.get('exc_msg'),
-           'stats': dict(scenes.scene_stats(obs), **{'index_' + ikind: 1, 'route_' + route: 1}), 'req': None, 'missing': obs['trace'].missing,
+           'stats': dict(scenes.scene_stats(obs), **{'index_' + ikind: 1, 'route_' + route: 1, 'numpy_typed_prms': int(bool(meta.get('numpy_typed_prms')))}), 'req': None, 'missing': obs['trace'].missing,
            'digest': hashlib.sha1(repr((rows, sorted(prms.items(), key=str))).encode()).hexdigest()[:16],
            'nrows': len(rows), 'prms': prms}
     if not obs['exc']:
